@@ -50,22 +50,39 @@ private:
     {
     }
 
+    // members become member functions of class templates whose template
+    // parameter is named `Byte`
+    template<typename T>
+    static void validate_member_name(const T& entity)
+    {
+        if(entity.name == "Byte")
+        {
+            throw_error(
+                "{}: member name `{}` is reserved for generated code",
+                entity.location,
+                entity.name);
+        }
+    }
+
     void validate_level_members(const sbe::level_members& members)
     {
         for(const auto& f : members.fields)
         {
             validate_name(f);
+            validate_member_name(f);
         }
 
         for(const auto& g : members.groups)
         {
             validate_name(g);
+            validate_member_name(g);
             validate_level_members(g.members);
         }
 
         for(const auto& d : members.data)
         {
             validate_name(d);
+            validate_member_name(d);
         }
     }
 
@@ -118,6 +135,7 @@ private:
                 [this](const auto& enc)
                 {
                     validate_encoding(enc);
+                    validate_member_name(enc);
                 },
                 element);
         }
